@@ -4,6 +4,7 @@
 #include <sys/time.h>
 #include <sys/resource.h>
 #include <errno.h>
+#include <dirent.h>
 
 extern "C" void __sanitizer_set_death_callback(void (*cb)(void)) __attribute__((weak));
 extern "C" int __lsan_do_recoverable_leak_check(void) __attribute__((weak));
@@ -148,6 +149,11 @@ void init(int argc, char** argv, const char* harnessName) {
   char p[512]; snprintf(p, sizeof p, "%s/fp.%s.%d.bin", opts.out, harnessName, (int)getpid());
   g_fpfd = open(p, O_WRONLY | O_CREAT | O_TRUNC, 0666);
   printf("@FPFILE %s\n", p);
+  { // threads that exist before the workload starts belong to the sanitizer runtime (ignored by the deadlock detector)
+    char line[512]; int k = snprintf(line, sizeof line, "@BGTIDS"); DIR* d = opendir("/proc/self/task");
+    if (d) { struct dirent* e; while ((e = readdir(d))) { int t = atoi(e->d_name); if (t > 0 && t != (int)getpid() && k < 480) k += snprintf(line + k, sizeof line - (size_t)k, " %d", t); } closedir(d); }
+    printf("%s\n", line);
+  }
   if (__sanitizer_set_death_callback) __sanitizer_set_death_callback(deathCallback);
   else { int sigs[] = { SIGSEGV, SIGBUS, SIGILL, SIGABRT, SIGFPE, SIGTRAP }; for (unsigned i = 0; i < sizeof sigs / sizeof *sigs; ++i) signal(sigs[i], sigHandler); }
   // resource guard: a runaway self-append must be a bounded, classified failure
